@@ -51,6 +51,45 @@ type encToken struct {
 	val   value // deep copy of the encoded value (for Unmarshal round trips)
 }
 
+// jsonDisjoint: both are struct types and no JSON member name of one matches
+// (case-insensitively, as encoding/json does) a member name of the other.
+func jsonDisjoint(a, b types.Type) bool {
+	sa, ok1 := a.Underlying().(*types.Struct)
+	sb, ok2 := b.Underlying().(*types.Struct)
+	if !ok1 || !ok2 {
+		return false
+	}
+	names := func(st *types.Struct) map[string]bool {
+		m := map[string]bool{}
+		for i := 0; i < st.NumFields(); i++ {
+			if jsonSkipped(st, i) {
+				continue
+			}
+			n := st.Field(i).Name()
+			if tag := reflect.StructTag(st.Tag(i)).Get("json"); tag != "" {
+				if c := strings.Split(tag, ",")[0]; c != "" {
+					n = c
+				}
+			}
+			if st.Field(i).Embedded() {
+				return nil // promoted fields: not modelled
+			}
+			m[strings.ToLower(n)] = true
+		}
+		return m
+	}
+	na, nb := names(sa), names(sb)
+	if na == nil || nb == nil {
+		return false
+	}
+	for n := range na {
+		if nb[n] {
+			return false
+		}
+	}
+	return true
+}
+
 func jsonSkipped(st *types.Struct, i int) bool {
 	f := st.Field(i)
 	if !f.Exported() {
@@ -771,12 +810,19 @@ func cryptoStub(m *machine, fn *ssa.Function, name, pkg string) intrinsic {
 				unsupp("Unmarshal of bytes that are not an encoding token (real decoding is not modelled)")
 			}
 			tok := o.data.(*encToken)
-			if !types.Identical(p.Elem(), tok.typ) {
-				unsupp("Unmarshal into %v of an encoding of %v", p.Elem(), tok.typ)
-			}
 			dst, _ := a[0].(*value)
 			if dst == nil {
 				panic(targetPanic{rt: "invalid memory address or nil pointer dereference"})
+			}
+			if !types.Identical(p.Elem(), tok.typ) {
+				// the JSON object of another struct type: members without a
+				// matching field are ignored by the decoder; when NO member
+				// matches, the destination keeps its value and no error is
+				// reported (anything else is not modelled)
+				if jsonDisjoint(p.Elem(), tok.typ) {
+					return iface{}
+				}
+				unsupp("Unmarshal into %v of an encoding of %v", p.Elem(), tok.typ)
 			}
 			store(tok.typ, dst, m.jsonProject(tok.typ, deepCopy(tok.val, 0), 0))
 			return iface{}
